@@ -9,6 +9,7 @@
  *   --fail K:E      call K is not executed; it returns -E
  *   --failafter K:E call K IS executed (e.g. close really releases the descriptor, as on Linux); its result is replaced by -E
  *   --failfrom K:E  call K and EVERY later call of the same system call fail with -E (a persistent condition: catches retry-until-success loops)
+ *   --failnr K:E:NR from call K on, every call with system-call number NR fails with -E (e.g. every later write after a short one)
  *   --retzero K     call K is not executed; it returns 0 (EOF for read)
  *   --short K:N     call K (read/write/sendto/...) has its length argument replaced by N
  *   --kill K:entry  SIGKILL immediately before call K executes;  K:exit immediately after it returned
@@ -80,7 +81,7 @@ static void on_alarm(int s) { (void)s; alarmed = 1; }
 
 #define MAXF 8
 int main(int argc, char **argv) {
-    const char *outp = NULL; int whole = 0; long failk[MAXF], faile[MAXF]; int nfail = 0; long shortk = -1, shortn = 0, killk = -1, retzero = -1, fak = -1, fae = 0, expectnr = -1, ffk = -1, ffe = 0, ffnr = -1; int skipalloc = 0, diverged = 0; int kill_at_exit = 0;
+    const char *outp = NULL; int whole = 0; long failk[MAXF], faile[MAXF]; int nfail = 0; long shortk = -1, shortn = 0, killk = -1, retzero = -1, fak = -1, fae = 0, expectnr = -1, ffk = -1, ffe = 0, ffnr = -1, fnk = -1, fne = 0, fnnr = -1; int skipalloc = 0, diverged = 0; int kill_at_exit = 0;
     long calltimeout = 3000, totaltimeout = 20000, maxcalls = 20000, maxrec = 3000; int ai = 1; int runaway = 0;
     for (; ai < argc; ai++) {
         if (!strcmp(argv[ai], "--")) { ai++; break; }
@@ -89,6 +90,7 @@ int main(int argc, char **argv) {
         else if (!strcmp(argv[ai], "--fail")) { sscanf(argv[++ai], "%ld:%ld", &failk[nfail], &faile[nfail]); nfail++; }
         else if (!strcmp(argv[ai], "--failafter")) { sscanf(argv[++ai], "%ld:%ld", &fak, &fae); }
         else if (!strcmp(argv[ai], "--failfrom")) { sscanf(argv[++ai], "%ld:%ld", &ffk, &ffe); }
+        else if (!strcmp(argv[ai], "--failnr")) { sscanf(argv[++ai], "%ld:%ld:%ld", &fnk, &fne, &fnnr); }
         else if (!strcmp(argv[ai], "--retzero")) retzero = atol(argv[++ai]);
         else if (!strcmp(argv[ai], "--short")) sscanf(argv[++ai], "%ld:%ld", &shortk, &shortn);
         else if (!strcmp(argv[ai], "--kill")) { char w[16] = ""; sscanf(argv[++ai], "%ld:%15s", &killk, w); kill_at_exit = !strcmp(w, "exit"); }
@@ -154,6 +156,7 @@ int main(int argc, char **argv) {
                         fprintf(out, ",\"buf_len\":%zu,\"buf_fnv\":\"%016llx\",\"iovcnt\":%ld", tot, (unsigned long long)fnv(b, o), cnt); if (o && b[o - 1] == '\n') fprintf(out, ",\"buf_ends_nl\":1"); free(b); } } }
             if (expectnr >= 0 && ((nfail && idx == failk[0]) || idx == retzero || idx == shortk || idx == fak || idx == ffk) && cur_nr != expectnr) { diverged = 1; fprintf(out, ",\"diverged_expected_nr\":%ld}", expectnr); kill(pid, SIGKILL); waitpid(pid, &st, 0); killed_by_us = 1; counted = 0; break; }
             for (int f = 0; f < nfail; f++) if (idx == failk[f]) { regs.orig_rax = (unsigned long long)-1; ptrace(PTRACE_SETREGS, pid, 0, &regs); pend = 1; pend_ret = -faile[f]; fprintf(out, ",\"injected\":%ld", -faile[f]); }
+            if (fnk >= 0 && idx >= fnk && cur_nr == fnnr) { regs.orig_rax = (unsigned long long)-1; ptrace(PTRACE_SETREGS, pid, 0, &regs); pend = 1; pend_ret = -fne; fprintf(out, ",\"injected\":%ld", -fne); }
             if (ffk >= 0 && idx == ffk) ffnr = cur_nr;
             if (ffnr >= 0 && idx >= ffk && cur_nr == ffnr) { regs.orig_rax = (unsigned long long)-1; ptrace(PTRACE_SETREGS, pid, 0, &regs); pend = 1; pend_ret = -ffe; fprintf(out, ",\"injected\":%ld", -ffe); }
             if (idx == retzero) { regs.orig_rax = (unsigned long long)-1; ptrace(PTRACE_SETREGS, pid, 0, &regs); pend = 1; pend_ret = 0; fprintf(out, ",\"injected\":0"); }
